@@ -237,6 +237,41 @@ def many_vars_recipe(draw):
                 rc += 1
                 items.append(read(tgt, rc))
                 rc += 1
+    # explicitly numbered variables that are only ever reached INDIRECTLY (through a DynamicScratchVar / index()), with
+    # small ids that the automatic numbering would otherwise hand out; and one shared by main and a routine
+    autos = sum(1 for n in names if vars_[n].get("slot") is None and vars_[n].get("kind") != "abi")
+    if level >= 5 and draw(st.integers(0, 2)) == 0:
+        free = [x for x in range(0, max(1, min(autos, 40))) if x not in used_ids]
+        if free:
+            sid = free[draw(st.integers(0, len(free) - 1))]
+            used_ids.add(sid)
+            vars_["ind0"] = {"t": "U", "slot": sid}
+            vars_["dynI"] = {"t": "U", "slot": None, "kind": "dyn"}
+            kinds.add("explicit-indirect-only")
+            marker[0] += 1
+            items.append(["dsetidx", "dynI", "ind0"])
+            items.append(["dstore", "dynI", ["int", marker[0]]])
+            items.append(["gput", _key(5000), ["index", "ind0"]])
+            # every automatic variable is read back below; the indirect one through the dynamic variable at the end
+            tail_ind = [["dsetidx", "dynI", "ind0"], ["gput", _key(5001), ["dload", "dynI", "U"]]]
+        else:
+            tail_ind = []
+    else:
+        tail_ind = []
+    if routines and draw(st.integers(0, 2)) == 0:
+        free = [x for x in range(0, max(1, min(autos, 40))) if x not in used_ids]
+        if free:
+            sid = free[draw(st.integers(0, len(free) - 1))]
+            used_ids.add(sid)
+            vars_["sh0"] = {"t": "U", "slot": sid}
+            kinds.add("explicit-shared-with-routine")
+            marker[0] += 1
+            items.append(["store", "sh0", ["int", marker[0]]])
+            r0 = routines[0]
+            marker[0] += 1
+            r0["body"][1].insert(0, ["store", "sh0", ["int", marker[0]]])
+            names_sh = True
+            items.append(["gput", _key(5002), ["load", "sh0"]])
     # index() of explicitly numbered variables
     for n in names:
         if vars_[n].get("slot") is not None and draw(st.integers(0, 2)) == 0:
@@ -246,6 +281,9 @@ def many_vars_recipe(draw):
         items.append(read(n, 1000 + j))
     for i, r in enumerate(routines):
         items.append(["callN", i, []] if r["ret"] == "N" else ["pop", ["call", i, []]])
+    if "sh0" in vars_:
+        items.append(["gput", _key(5003), ["load", "sh0"]])
+    items += tail_ind
     items.append(["int", 1])
     recipe = {"mode": mode, "level": level, "vars": vars_, "routines": routines, "main": ["seq", items], "kinds": sorted(kinds), "nv": nv}
     return recipe
@@ -270,6 +308,15 @@ def limit_case(draw):
         items.append(["gput", _key(j), ["load", "m%d" % j]])
     items.append(["int", 1])
     recipe = {"mode": "app", "level": 5, "vars": vars_, "routines": [], "main": ["seq", items], "kinds": ["limit"], "nv": total}
+    if dup and draw(st.booleans()):
+        # the second requester is reached only through a DynamicScratchVar
+        recipe["vars"]["m1"] = {"t": "U", "slot": ids[0]}
+        recipe["vars"]["dd"] = {"t": "U", "slot": None, "kind": "dyn"}
+        main = [it for it in recipe["main"][1] if not (it[0] in ("store", "gput") and (it[1] == "m1" or (it[0] == "gput" and it[2] == ["load", "m1"])))]
+        main = main[:-1] + [["dsetidx", "dd", "m1"], ["dstore", "dd", ["int", 9]], ["gput", _key(4000), ["dload", "dd", "U"]], ["int", 1]]
+        recipe["main"] = ["seq", main]
+        recipe["level"] = 5
+        return recipe, "reject", "two variables request the same slot id %d (one of them is used only through a DynamicScratchVar)" % ids[0]
     if dup:
         return recipe, "reject", "two variables request the same slot id %d" % ids[0]
     if total > 256:
